@@ -8,12 +8,16 @@ package main
 import (
 	"bytes"
 	"fmt"
+	"io"
+	"net/http"
+	"net/http/httptest"
 	"os"
 	"os/exec"
 	"path/filepath"
 	"sort"
 	"strconv"
 	"strings"
+	"sync"
 	"time"
 
 	"github.com/folbricht/desync"
@@ -22,20 +26,103 @@ import (
 )
 
 type c11CLICase struct {
-	BlobHex  string     `json:"blob_hex"`
-	Sizes    []int      `json:"sizes"`
-	Stores   [][]string `json:"stores"` // per -s location: members; "dead" = unreachable HTTP store, else a local store name
-	Holds    [][][]int  `json:"holds"`  // per location, per member: chunk numbers it holds
-	Cache    []int      `json:"cache"`  // chunk numbers in the cache; nil with NoCache
-	CacheBad []int      `json:"cache_invalid"`
-	NoCache  bool       `json:"no_cache"`
-	Repair   bool       `json:"repair"`
-	Cli      string     `json:"cli,omitempty"`
-	Exit     int        `json:"exit,omitempty"`
-	Model    string     `json:"model,omitempty"`
+	BlobHex   string     `json:"blob_hex"`
+	Sizes     []int      `json:"sizes"`
+	Stores    [][]string `json:"stores"` // per -s location: members; "dead" = unreachable HTTP store, else a local store name
+	Holds     [][][]int  `json:"holds"`  // per location, per member: chunk numbers it holds
+	Cache     []int      `json:"cache"`  // chunk numbers in the cache; nil with NoCache
+	CacheBad  []int      `json:"cache_invalid"`
+	NoCache   bool       `json:"no_cache"`
+	CacheKind string     `json:"cache_kind"` // "" = local directory, "http" = writable chunk server, "s3" = S3 bucket
+	Repair    bool       `json:"repair"`
+	Cli       string     `json:"cli,omitempty"`
+	Exit      int        `json:"exit,omitempty"`
+	Model     string     `json:"model,omitempty"`
 }
 
 const c11DeadStore = "http://127.0.0.1:9/store"
+
+// c11S3 is a minimal S3 endpoint over a local chunk-store directory: bucket "bkt", object key = path below dir.
+// Enough for desync's S3Store: bucket probe, GET / HEAD / PUT of objects (PUT bodies may be aws-chunked).
+type c11S3 struct {
+	dir string
+	mu  sync.Mutex
+}
+
+func (s *c11S3) ServeHTTP(w http.ResponseWriter, r *http.Request) {
+	s.mu.Lock()
+	defer s.mu.Unlock()
+	p := strings.TrimPrefix(r.URL.Path, "/")
+	parts := strings.SplitN(p, "/", 2)
+	if len(parts) < 2 || parts[1] == "" { // bucket level: exists, region
+		if _, ok := r.URL.Query()["location"]; ok {
+			w.Header().Set("Content-Type", "application/xml")
+			io.WriteString(w, `<?xml version="1.0" encoding="UTF-8"?><LocationConstraint xmlns="http://s3.amazonaws.com/doc/2006-03-01/">us-east-1</LocationConstraint>`)
+			return
+		}
+		w.WriteHeader(http.StatusOK)
+		return
+	}
+	key := filepath.FromSlash(parts[1])
+	if strings.Contains(key, "..") {
+		http.Error(w, "bad key", http.StatusBadRequest)
+		return
+	}
+	file := filepath.Join(s.dir, key)
+	switch r.Method {
+	case "GET", "HEAD":
+		b, err := os.ReadFile(file)
+		if err != nil {
+			w.Header().Set("Content-Type", "application/xml")
+			w.WriteHeader(http.StatusNotFound)
+			if r.Method == "GET" {
+				io.WriteString(w, `<?xml version="1.0" encoding="UTF-8"?><Error><Code>NoSuchKey</Code><Message>The specified key does not exist.</Message><Key>`+parts[1]+`</Key><BucketName>bkt</BucketName><Resource>/`+p+`</Resource><RequestId>1</RequestId><HostId>1</HostId></Error>`)
+			}
+			return
+		}
+		w.Header().Set("Content-Length", strconv.Itoa(len(b)))
+		w.Header().Set("ETag", `"0"`)
+		w.Header().Set("Last-Modified", "Wed, 01 Jan 2020 00:00:00 GMT")
+		w.Header().Set("Content-Type", "application/octet-stream")
+		if r.Method == "GET" {
+			w.Write(b)
+		}
+	case "PUT":
+		body, _ := io.ReadAll(r.Body)
+		if strings.HasPrefix(r.Header.Get("X-Amz-Content-Sha256"), "STREAMING-") {
+			var out []byte
+			for len(body) > 0 {
+				k := bytes.Index(body, []byte("\r\n"))
+				if k < 0 {
+					break
+				}
+				hdr := string(body[:k])
+				if j := strings.Index(hdr, ";"); j >= 0 {
+					hdr = hdr[:j]
+				}
+				n, err := strconv.ParseInt(hdr, 16, 64)
+				if err != nil || n == 0 || k+2+int(n) > len(body) {
+					break
+				}
+				out = append(out, body[k+2:k+2+int(n)]...)
+				body = body[k+2+int(n):]
+				body = bytes.TrimPrefix(body, []byte("\r\n"))
+			}
+			body = out
+		}
+		os.MkdirAll(filepath.Dir(file), 0755)
+		tmp := file + ".tmp-s3"
+		if err := os.WriteFile(tmp, body, 0644); err != nil {
+			http.Error(w, err.Error(), http.StatusInternalServerError)
+			return
+		}
+		os.Rename(tmp, file)
+		w.Header().Set("ETag", `"0"`)
+		w.WriteHeader(http.StatusOK)
+	default:
+		http.Error(w, "not implemented", http.StatusNotImplemented)
+	}
+}
 
 func c11CLI(a vh.Args, o *vh.Oracle, r *vh.Result, rng *vh.Rand) error {
 	bin := os.Getenv("VH_DESYNC")
@@ -46,6 +133,20 @@ func c11CLI(a vh.Args, o *vh.Oracle, r *vh.Result, rng *vh.Rand) error {
 	n := 24
 	if a.Tier == "thorough" {
 		n = 80
+	}
+	// corpus: one complete upstream store; a cache of every kind the CLI can build holding one invalid object, one
+	// good object and lacking the third chunk; --cache-repair on (default) and off
+	serial := 1000
+	for _, kind := range []string{"", "http", "s3"} {
+		for _, repair := range []bool{true, false} {
+			blob := rng.Bytes(600)
+			c := &c11CLICase{BlobHex: vh.Hex(blob), Sizes: []int{150, 200, 250}, Stores: [][]string{{"st0"}}, Holds: [][][]int{{{0, 1, 2}}},
+				Cache: []int{0, 1}, CacheBad: []int{0}, CacheKind: kind, Repair: repair}
+			if err := c11CheckCLI(a, o, r, bin, c, serial); err != nil {
+				return err
+			}
+			serial++
+		}
 	}
 	for k := 0; k < n; k++ {
 		c := c11GenCLICase(rng)
@@ -103,6 +204,7 @@ func c11GenCLICase(rng *vh.Rand) *c11CLICase {
 		c.Holds = append(c.Holds, hs)
 	}
 	if !c.NoCache {
+		c.CacheKind = []string{"", "", "http", "http", "s3"}[rng.Intn(5)]
 		c.Cache = subset(4)
 		for _, i := range c.Cache {
 			if rng.Chance(1, 3) {
@@ -242,7 +344,24 @@ func c11CheckCLI(a vh.Args, o *vh.Oracle, r *vh.Result, bin string, c *c11CLICas
 		}
 		members = append(members, memberSpec(c.Cache, c.CacheBad, "n"))
 		cacheIdx = len(members) - 1
-		args = append(args, "-c", cacheDir)
+		cacheLoc := cacheDir
+		switch c.CacheKind {
+		case "http":
+			// a writable chunk server over the cache directory; it serves objects as they are (no verification
+			// on the server side), so an invalid object reaches the client, which is where the CLI's cache sits
+			st, err := desync.NewLocalStore(cacheDir, desync.StoreOptions{SkipVerify: true})
+			if err != nil {
+				return err
+			}
+			srv := httptest.NewServer(desync.NewHTTPHandler(st, true, false, desync.Converters{desync.Compressor{}}, ""))
+			defer srv.Close()
+			cacheLoc = srv.URL + "/"
+		case "s3":
+			srv := httptest.NewServer(&c11S3{dir: cacheDir})
+			defer srv.Close()
+			cacheLoc = "s3+" + srv.URL + "/bkt"
+		}
+		args = append(args, "-c", cacheLoc)
 		if c.Repair {
 			shape = fmt.Sprintf("C[%s,P[L%d]]", shape, cacheIdx)
 		} else {
@@ -257,7 +376,7 @@ func c11CheckCLI(a vh.Args, o *vh.Oracle, r *vh.Result, bin string, c *c11CLICas
 	out := filepath.Join(work, "out")
 	args = append([]string{"extract", "-n", "1", "-e", "0"}, append(args, idxFile, out)...)
 	cmd := exec.Command(bin, args...)
-	cmd.Env = append(os.Environ(), "HOME="+work)
+	cmd.Env = append(os.Environ(), "HOME="+work, "S3_ACCESS_KEY=key", "S3_SECRET_KEY=secret", "S3_REGION=us-east-1")
 	var stderr bytes.Buffer
 	cmd.Stderr = &stderr
 	done := make(chan error, 1)
@@ -272,6 +391,7 @@ func c11CheckCLI(a vh.Args, o *vh.Oracle, r *vh.Result, bin string, c *c11CLICas
 		return nil
 	}
 	ok := runErr == nil
+	c.Exit = 0
 	c.Cli = "desync " + strings.Join(args, " ")
 	if !ok {
 		c.Exit = 1
@@ -289,6 +409,9 @@ func c11CheckCLI(a vh.Args, o *vh.Oracle, r *vh.Result, bin string, c *c11CLICas
 	r.Count(key, len(members) >= 2)
 	r.Dist("cli:" + c11Kinds("N="+shape))
 	r.Dist(fmt.Sprintf("cli-exit-ok:%v", ok))
+	if !c.NoCache {
+		r.Dist("cli-cache-kind:" + map[string]string{"": "local", "http": "http", "s3": "s3"}[c.CacheKind])
+	}
 	if strings.Contains(c.Cli, c11DeadStore) {
 		r.Dist("cli-with-dead-member")
 	}
@@ -328,7 +451,12 @@ func c11CheckCLI(a vh.Args, o *vh.Oracle, r *vh.Result, bin string, c *c11CLICas
 	}
 	cacheFine := c.NoCache || c.Repair || len(c.CacheBad) == 0
 	if full && live > 0 && cacheFine && !ok {
-		r.Fail("predicate", "cli/extract-fails-with-complete-first-location", "every reachable member of the first store location holds every chunk, yet extract failed: "+c.Cli+": "+strings.TrimSpace(stderr.String()), c)
+		class := "cli/extract-fails-with-complete-first-location"
+		if len(c.CacheBad) > 0 && c.Repair {
+			// --cache-repair is on: an invalid cached object has to be replaced from upstream, for every kind of cache
+			class = "cli/invalid-cached-chunk-not-repaired"
+		}
+		r.Fail("predicate", class, "every reachable member of the first store location holds every chunk, yet extract failed: "+c.Cli+": "+strings.TrimSpace(stderr.String()), c)
 	}
 	if ok && !c.NoCache {
 		st, _ := desync.NewLocalStore(cacheDir, desync.StoreOptions{})
